@@ -233,6 +233,15 @@ def check(chk):
     ok = bool(mx) and "self.credits_config['max_credits']" in src(mx[0].value) and "self.credit_units_per_game" in src(mx[0].value) and \
         isinstance(mx[0].value, ast.BinOp) and isinstance(mx[0].value.op, ast.Mult)
     chk.ob("BOUND-2", "the cap in units = max_credits x units per game", ok, a.where(), construct=a.ident, text="cap definition")
+    # the comparison with the cap judges the *final* total: nothing is added to the total once it has been compared (the tier bonus comes first)
+    cmpn = [n for n in acfg.nodes if n.kind == "test" and n.ast is not None and "total_credit_units" in src(n.ast) and "max_credit_units" in src(n.ast)]
+    chk.need(cmpn, "BOUND-2", "_add_credit_units compares the total with the cap", a)
+    after = acfg.reachable([cmpn[0].id], include_start=False)
+    late = [n for n in acfg.nodes if n.id in after and n.kind == "stmt" and isinstance(n.ast, (ast.Assign, ast.AugAssign))
+            and src(n.ast.targets[0] if isinstance(n.ast, ast.Assign) else n.ast.target) == "total_credit_units" and src(n.ast.value) != "max_credit_units"]
+    chk.ob("BOUND-2", "nothing is added to the total after it has been compared with the cap (tier bonuses are part of what is capped)", not late,
+           a.where(late[0].ast) if late else a.where(), detail="`%s` runs after the cap test: a bonus earned at the cap is stored on top of the maximum"
+           % (src(late[0].ast) if late else ""), construct=a.ident, text="total changed after the cap test")
 
     # ------------------------------------------------------------ TABLE-10
     for gate in ("_request_to_start_game", "_player_add_request"):
@@ -552,6 +561,7 @@ def battery():
         M("handler clean-up also wipes the expiry timers", CR, "        self.machine.events.remove_handler(self._credit_event_callback)\n", "        self.machine.events.remove_handler(self._credit_event_callback)\n        self.delay.clear()\n", "UNIT-7"),
         M("expiry resumed on game_ended only", CR, "        self.add_mode_event_handler('mode_game_stopped',\n                                    self._game_ended)", "        self.add_mode_event_handler('game_ended',\n                                    self._game_ended)", "UNIT-7"),
         M("new player charged according to the configured default", CR, "    def _player_added(self, **kwargs):\n        del kwargs\n        if self.machine.settings.get_setting_value('free_play'):", "    def _player_added(self, **kwargs):\n        del kwargs\n        if self.credits_config['free_play']:", "TABLE-10"),
+        M("tier bonus added after the cap test", CR, "        # check for pricing tier\n        self.credit_units_for_pricing_tiers %= self.pricing_tiers_wrap_around\n\n        if price_tiering:\n            # add credits one by one to get all pricing tiers\n            for _ in range(credit_units):\n                self.credit_units_for_pricing_tiers += 1\n                bonus_credit_units = self.pricing_table[self.credit_units_for_pricing_tiers]\n                total_credit_units += bonus_credit_units\n                self.credit_units_for_pricing_tiers %= self.pricing_tiers_wrap_around\n\n", "", "BOUND-2", also=[(CR, "        if max_credit_units <= 0 or max_credit_units > previous_credit_units:", "        self.credit_units_for_pricing_tiers %= self.pricing_tiers_wrap_around\n        if price_tiering:\n            for _ in range(credit_units):\n                self.credit_units_for_pricing_tiers += 1\n                bonus_credit_units = self.pricing_table[self.credit_units_for_pricing_tiers]\n                total_credit_units += bonus_credit_units\n                self.credit_units_for_pricing_tiers %= self.pricing_tiers_wrap_around\n        if max_credit_units <= 0 or max_credit_units > previous_credit_units:")]),
         M("cap overwritten by total", CR, "            self.machine.variables.set_machine_var('credit_units', max_credit_units)\n            total_credit_units = max_credit_units\n", "            self.machine.variables.set_machine_var('credit_units', max_credit_units)\n", "BOUND-2"),
         M("cap test off by one game", CR, "        if max_credit_units and total_credit_units > max_credit_units:", "        if max_credit_units and total_credit_units > max_credit_units + self.credit_units_per_game:", "BOUND-2"),
         M("negative balance after charge", CR, "            if new_credit_units < 0:\n                self.warning_log(\"Somehow credit units went below 0?!? Resetting \"\n                                 \"to 0.\")\n                new_credit_units = 0\n", "", "BOUND-2"),
